@@ -44,10 +44,11 @@ package limiter
 //@ func NewDefaultLimiter
 //@   requires cfg: maxWindowTime <= 1<<61
 //@   ensures[C05] rejects: (limit == nil || strategy == nil || minWindowTime <= 0 || maxWindowTime <= 0 || maxWindowTime < minWindowTime || windowSize < 10) ==> ret0 == nil && ret1 != nil
+//@   ensures[C05] accepts: !(limit == nil || strategy == nil || minWindowTime <= 0 || maxWindowTime <= 0 || maxWindowTime < minWindowTime || windowSize < 10) ==> ret0 != nil && ret1 == nil
 //@   ensures[C05] enforced_at_construction: ret0 != nil ==> ncalls("core.Strategy.SetLimit") == 1 && callrecv("core.Strategy.SetLimit", 0) == strategy && callarg("core.Strategy.SetLimit", 0, 0) == limit.est && strategy.limit == max(1, limit.est)
 //@   ensures[C05] nothing_enforced_on_error: ret0 == nil ==> ncalls("core.Strategy.SetLimit") == 0
 //@   establishes[C09] ret0 != nil ==> ret0
-//@   ensures[C01,C02,C09] fields: ret0 != nil ==> ret1 == nil && ret0.limit == limit && ret0.strategy == strategy && ret0.minWindowTime == minWindowTime && ret0.maxWindowTime == maxWindowTime && ret0.minRTTThreshold == minRTTThreshold && ret0.windowSize == windowSize && fresh(ret0.inFlight) && *ret0.inFlight == 0 && ret0.nextUpdateTime == 0 && ret0.sample.sampleCount == 0 && ret0.sample.didDrop == false
+//@   ensures[C01,C02,C09] fields: ret0 != nil ==> ret1 == nil && fresh(ret0) && ret0.limit == limit && ret0.strategy == strategy && ret0.minWindowTime == minWindowTime && ret0.maxWindowTime == maxWindowTime && ret0.minRTTThreshold == minRTTThreshold && ret0.windowSize == windowSize && fresh(ret0.inFlight) && *ret0.inFlight == 0 && ret0.nextUpdateTime == 0 && ret0.sample.sampleCount == 0 && ret0.sample.didDrop == false
 
 //@ func (*DefaultLimiter).Acquire
 //@   refines[C02] core.Limiter.Acquire
@@ -345,3 +346,20 @@ package limiter
 //@ func NewLifoBlockingLimiterWithDefaults
 //@   requires cfg: delegate != nil
 //@   ensures[C11] lifo: result != nil && result.QueueBlockingLimiter != nil && result.QueueBlockingLimiter.backlog.ordering == "lifo" && result.QueueBlockingLimiter.delegate == delegate
+
+// ---------------------------------------------------------------------------------------------
+// Default-configuration constructors.
+//@ func NewDefaultLimiterWithDefaults
+//@   requires cfg: strategy != nil
+//@   establishes[C09] ret0 != nil ==> ret0
+//@   ensures[C05,C14] built: ret0 != nil && ret1 == nil && ret0.strategy == strategy
+//@   ensures[C05,C14] vegas_by_default: dyntype(ret0.limit, "*limit.VegasLimit")
+//@   ensures[C05,C14] new_object: fresh(ret0)
+
+//@ func NewDelegateListener
+//@   ensures[C02] wraps: result != nil && fresh(result) && result.delegateListener == delegateListener
+
+// pop is used by tests only; its effect is peek's eviction closure (contracts above).
+//@ func (*queue).pop
+//@   maintains q
+//@   owns[C17]
